@@ -140,6 +140,12 @@ class Report:
 
     def failed_ob(self, finding: Finding):
         self.obligations += 1
+        finding.counted = True
+        self.findings.append(finding)
+
+    def bounded_violation(self, finding: Finding):
+        """a violation found by a bounded / run-time contract check: reported, but never part of the obligation count"""
+        finding.counted = False
         self.findings.append(finding)
 
     def undecided_ob(self, oid, why):
@@ -193,7 +199,7 @@ class Report:
             vio_lines.append(f"VIOLATION property={self.prop} replay={path}{suffix}")
             lines.append(f"  obligation {f.obligation}: {f.what[:400]}")
         # obligations that fail only because of a recorded (known) finding are reported apart: they are neither discharged nor new
-        n_known_ob = len(known_seen)
+        n_known_ob = sum(1 for _, f in known_seen if getattr(f, 'counted', True))
         cov = {
             "obligations": self.obligations - n_known_ob,
             "known_finding_obligations": n_known_ob,
